@@ -41,26 +41,3 @@ Proof.
   split; [vm_compute; reflexivity|].
   intros (_ & B & _). specialize (B (PInt 5) eq_refl). vm_compute in B. discriminate.
 Qed.
-
-(* finding C04/nested-optional-struct-stored-then-error: a struct below the top level of a datatype may omit optional
-   members (validate accepts it, nothing merges a previous value into it); export_value then refuses the stored value.
-   "change m:_a {'b': {}}": the driver is called, the cache is overwritten, but building the update message raises
-   WrongTypeError: the client gets error_change WrongType, subscribers get nothing. *)
-Definition s_b : str := [98%N].
-Definition s_x : str := [120%N].
-Definition d_nested : dtype := TStruct [(s_b, TStruct [(s_x, TInt 0 5)] [s_x] false)] [] false.
-Definition md1 : mdesc :=
-  {| md_name := s_m; md_export := true;
-     md_acc := [AParam {| p_name := s_a; p_export := Some s__a; p_dt := d_nested; p_readonly := false;
-                          p_constant := false; p_haswrite := true; p_checks := [] |}] |}.
-Definition c1 : cache := [(s_a, PDict [(s_b, PDict [(s_x, PInt 1)])])].
-Definition rq1 : request :=
-  {| rq_act := AChange; rq_mod := s_m; rq_acc := Some s__a; rq_data := PDict [(s_b, PDict [])]; rq_drv := DNone |}.
-
-Theorem C04_refuted_stored_then_error :
-  exists md c rq, rq_act rq = AChange /\
-    let o := handle E0 no_hooks md c rq in
-    o_reply o = Some WrongType /\ o_drv o = [Write s_a (PDict [(s_b, PDict [])])] /\ o_upd o = [] /\
-    getp c s_a = Some (PDict [(s_b, PDict [(s_x, PInt 1)])]) /\
-    getp (o_cache o) s_a = Some (PDict [(s_b, PDict [])]).
-Proof. exists md1, c1, rq1. vm_compute. repeat split. Qed.
